@@ -189,30 +189,37 @@ class Job:
         us = self.spec.get("unwindset")
         if not us:
             return []
+        # Kani's output parser aborts on cbmc's --show-loops JSON, but only after the per-harness
+        # GOTO binary has been written and its path logged; cbmc then lists the loops directly.
         cmd = self.kani_cmd(["-Z", "unstable-options", "--cbmc-args", "--show-loops"])
-        rc, to, _ = run_limited(cmd, env, KANI_CRATE, 900, 16, self.logfile)
+        run_limited(cmd, env, KANI_CRATE, 900, 16, self.logfile)
         text = open(self.logfile, errors="replace").read()
-        loops = re.findall(r"Loop (\S+):", text)
+        m = re.search(r"Reading GOTO program from file (\S+\.out)", text)
+        if not m or not os.path.exists(m.group(1)):
+            raise RuntimeError("unwindset: GOTO binary not found (harness crate failed to build?)")
+        out = subprocess.run(["cbmc", "--show-loops", m.group(1)], capture_output=True, text=True, timeout=600).stdout
+        loops = []  # (id, line, column) in listing order
+        for lm in re.finditer(r"^Loop (\S+):\n\s+file (\S+) line (\d+)(?: column (\d+))?", out, re.M):
+            loops.append((lm.group(1), int(lm.group(3)), int(lm.group(4) or 0)))
         pairs = []
-        for func_sub, ordinal, bound in us:
-            cands = [l for l in loops if func_sub in l]
-            # group by function (strip .N), keep order of appearance
+        for func_sub, rank, bound in us:
+            cands = [l for l in loops if func_sub in l[0]]
             funcs = []
             for l in cands:
-                f = l.rsplit(".", 1)[0]
+                f = l[0].rsplit(".", 1)[0]
                 if f not in funcs:
                     funcs.append(f)
             if not funcs:
                 raise RuntimeError(f"unwindset: no loop matches {func_sub!r}")
             for f in funcs:
-                ids = [l for l in cands if l.rsplit(".", 1)[0] == f]
-                if ordinal == "*":
-                    pairs += [(l, bound) for l in ids]
+                # rank = position in *source order* (outermost `for` first), independent of cbmc's numbering
+                ids = sorted([l for l in cands if l[0].rsplit(".", 1)[0] == f], key=lambda l: (l[1], l[2]))
+                if rank == "*":
+                    pairs += [(l[0], bound) for l in ids]
+                elif rank < len(ids):
+                    pairs.append((ids[rank][0], bound))
                 else:
-                    want = f"{f}.{ordinal}"
-                    if want not in ids:
-                        raise RuntimeError(f"unwindset: loop {want} not found")
-                    pairs.append((want, bound))
+                    raise RuntimeError(f"unwindset: function {func_sub} has only {len(ids)} loops, rank {rank} requested")
         return pairs
 
     def run(self):
@@ -227,14 +234,16 @@ class Job:
                 extra = ["-Z", "unstable-options", "--cbmc-args", "--unwindset",
                          ",".join(f"{l}:{b}" for l, b in pairs)]
                 r["unwindset"] = [f"{l}:{b}" for l, b in pairs]
-            cmd = self.kani_cmd(extra)
+            cmd = ["/usr/bin/time", "-f", "VERIF_MAXRSS_KB=%M"] + self.kani_cmd(extra)
             rc, timed_out, wall = run_limited(
                 cmd, env, KANI_CRATE, spec.get("timeout", 900), spec.get("mem_gb", 12), self.logfile)
             text = open(self.logfile, errors="replace").read()
             # only the last invocation counts
-            text = text[text.rfind("\n$ cargo kani"):]
+            text = text[text.rfind("\n$ /usr/bin/time"):]
             p = parse_kani_output(text)
             r.update(p)
+            mm = re.search(r"VERIF_MAXRSS_KB=(\d+)", text)
+            r["peak_rss_gb"] = round(int(mm.group(1)) / 1e6, 2) if mm else None
             r["rc"] = rc
             r["timed_out"] = timed_out
             if timed_out:
@@ -275,7 +284,11 @@ class Job:
 
 def schedule(jobs, max_jobs, mem_budget_gb):
     """Memory-aware parallel execution (the box has no swap)."""
-    pending = sorted(jobs, key=lambda j: -j.spec.get("mem_gb", 12))
+    def est(j):
+        cap = j.spec.get("mem_gb", 12)
+        return j.spec.get("mem_est", 4 if cap <= 12 else 0.6 * cap)
+
+    pending = sorted(jobs, key=lambda j: -est(j))
     running = []
     lock = threading.Lock()
     used = [0.0]
@@ -283,17 +296,17 @@ def schedule(jobs, max_jobs, mem_budget_gb):
     def worker(job):
         job.run()
         with lock:
-            used[0] -= job.spec.get("mem_gb", 12)
+            used[0] -= est(job)
         r = job.result
         log(f"  [{r['verdict']:>14}] {job.name}  {r['wall_s']} s  checks={r.get('checks_total', 0)}"
-            f" covers={len(r.get('covers', []))} {r.get('why', '')[:160]}")
+            f" covers={len(r.get('covers', []))} rss={r.get('peak_rss_gb')}GB {r.get('why', '')[:160]}")
 
     while pending or running:
         running = [t for t in running if t.is_alive()]
         started = False
         with lock:
             for job in list(pending):
-                need = job.spec.get("mem_gb", 12)
+                need = est(job)
                 if len(running) < max_jobs and (used[0] + need <= mem_budget_gb or not running):
                     used[0] += need
                     pending.remove(job)
@@ -553,6 +566,8 @@ def write_replay_dispatch(gen_dir):
             if full in seen:
                 continue
             seen.add(full)
+            for c in h.get("cfgs", []):
+                lines.append(f"        #[cfg({c})]")
             lines.append(f"        \"{full}\" => kani::concrete_playback_run(vals, crate::{full}),")
     lines += ["        _ => return false,", "    }", "    true", "}"]
     open(os.path.join(gen_dir, "replay_dispatch.rs"), "w").write("\n".join(lines) + "\n")
@@ -619,6 +634,7 @@ def write_evidence(prop, tier, seed, pdef, jobs, native_info, findings, known_li
             "sat_clauses": r.get("clauses"),
             "solver_s": r.get("solver_s"),
             "wall_s": r.get("wall_s"),
+            "peak_rss_gb": r.get("peak_rss_gb"),
             "replays": r.get("replays", []),
         })
         samples.append({"harness": j.name, "obligation": s.get("statement", ""), "bounds": s.get("bounds", ""),
